@@ -114,7 +114,8 @@ func ruleC07ExistsMerge(c *Ctx) {
 		return
 	}
 	n, bad := 0, ""
-	var outerCopy, elemCopy *mapCopy // the two key-by-key copies into the merged row
+	rowParam := paramNameOfType(f, "Map") // the outer row, whatever the parameter is called
+	var outerCopy, elemCopy *mapCopy      // the two key-by-key copies into the merged row
 	copies := mapCopies(f)
 	copyTB := make([]*TB, len(copies))
 	for i := range copies {
@@ -146,7 +147,7 @@ func ruleC07ExistsMerge(c *Ctx) {
 		srcT := copyTB[i].Of(mc.Src)
 		dstOf[mc] = copyTB[i].Of(mc.Dst).String()
 		src := srcT.String()
-		isOuter := srcT.Op == "param" || srcT.Op == "phi" && strings.Contains(src, "p:current") || srcT.Op == "call" && strings.Contains(srcT.Name, "BackwardNavigation")
+		isOuter := srcT.Op == "param" || srcT.Op == "phi" && rowParam != "" && strings.Contains(src, "p:"+rowParam) || srcT.Op == "call" && strings.Contains(srcT.Name, "BackwardNavigation")
 		if !isOuter {
 			if strings.Contains(src, "assert") || strings.Contains(src, ".from") {
 				elemCopy = mc
